@@ -301,6 +301,19 @@ def outcomes_of_local(body, local, extra_transparent=None, max_iter=50):
                     if dl not in car:
                         car[dl] = car[o["p"]["l"]]
                         changed = True
+                elif "p" in o:
+                    # the value read back out of a field of an intermediate struct / tuple (`Outcome { credentials, .. }` destructured), or
+                    # the whole intermediate value moved on
+                    pr = [e for e in o["p"]["proj"] if e != "*"]
+                    if pr and isinstance(pr[0], dict) and "f" in pr[0] and (o["p"]["l"], pr[0]["f"]) in tup_car and _transparent_field(pr[1:]):
+                        if dl not in car:
+                            car[dl] = tup_car[(o["p"]["l"], pr[0]["f"])]
+                            changed = True
+                    elif not pr:
+                        for (tl, ti), pol_ in list(tup_car.items()):
+                            if tl == o["p"]["l"] and (dl, ti) not in tup_car:
+                                tup_car[(dl, ti)] = pol_
+                                changed = True
             elif k == "un" and rv.get("op") == "Not":
                 o = rv["ops"][0]
                 if "p" in o and o["p"]["l"] in car and not o["p"]["proj"]:
@@ -314,7 +327,7 @@ def outcomes_of_local(body, local, extra_transparent=None, max_iter=50):
                     if dl not in car:
                         car[dl] = car[o["p"]["l"]]
                         changed = True
-            elif k == "agg" and rv.get("agg") == "tuple":
+            elif k == "agg" and rv.get("agg") in ("tuple", "adt") and not rv.get("variant", "") in ("Some", "Ok", "Err", "None", "Ready", "Continue", "Break"):
                 # `match (a, b) { .. }`: the tuple's fields carry their operands
                 for i, o in enumerate(rv["ops"]):
                     if isinstance(o, dict) and "p" in o and o["p"]["l"] in car and not o["p"]["proj"] and (dl, i) not in tup_car:
